@@ -305,6 +305,14 @@ def confirm(ob: Dict[str, Any]) -> Tuple[Optional[Dict[str, Any]], str]:
         # the obligation itself was decided by running the real entry point on this input
         return {"fault_job": rp["job"], "real_outcome": ob.get("detail", ""), "expected": rp["job"].get("expect"),
                 "found_by": "fault injection through MasterOfPuppets"}, "the real entry point did not raise"
+    if rp.get("kind") == "call":
+        # a concrete call of a real function with the expected result
+        job = {"kind": "call", "target": rp["target"], "args": rp.get("args", []), "kwargs": rp.get("kwargs", {})}
+        r = run_real(job)
+        if r != {"result": rp.get("expect")}:
+            return {"call": job, "real": r, "expected": rp.get("expect"), "found_by": "concrete representative"}, \
+                f"{rp['target']} returned {r} where {rp.get('expect')!r} is required"
+        return None, "the un-instrumented function returns the expected value on this input"
     if rp.get("kind") not in ("operator", "mnemonic", "operand", "deref"):
         return None, "no concretiser for this obligation kind"
     if ob.get("detail", "").startswith("counter-model"):
@@ -400,6 +408,14 @@ def rerun(prop: str, path: str) -> int:
         print(json.dumps({"outcome": out, "expected": ci.get("expected")}))
         bad = not (out.startswith("raised:") if ci.get("expected") == "raise" else out == "returned:True")
         if bad:
+            print(f"VIOLATION property={prop} replay={path}")
+            return 1
+        print("no disagreement on this tree")
+        return 0
+    if "call" in ci:
+        r = run_real(ci["call"])
+        print(json.dumps({"real": r, "expected": ci.get("expected")}))
+        if r != {"result": ci.get("expected")}:
             print(f"VIOLATION property={prop} replay={path}")
             return 1
         print("no disagreement on this tree")
